@@ -794,7 +794,7 @@ theorem tinv_handle (s : Sys) (self : Cid) (e : Env) (hi : TablesInv none none s
             (fun _ => ⟨rfl, rfl⟩) (Or.inl (by simp)) hi
           simpa [dropEx_none] using this
         exact tinv_doKill _ self _ _ _ hself (Or.inr (by simp)) hT
-      · exact hi
+      · exact tinv_sameT (sameT_upd s self _ (fun _ => rfl)) hi
     · repeat' split
       all_goals first
         | exact hi
